@@ -7,6 +7,7 @@ import (
 	"go/ast"
 	"go/token"
 	"golang.org/x/tools/go/ssa"
+	"sort"
 	"strings"
 
 	"golang.org/x/tools/go/cfg"
@@ -307,6 +308,20 @@ func closeInterval(fn *ssa.Function, field string, depth int, memo map[*ssa.Func
 			if callee, _ := calleeOf(x); callee != nil && isModuleFn(callee) {
 				return closeInterval(callee, field, depth+1, memo)
 			}
+			// a function value the caller of the enclosing function passed in (resolved by the rule for one call site)
+			if cands, ok := dynCallees[x]; ok && len(cands) > 0 {
+				lo, hi := 1<<30, 0
+				for _, cf := range cands {
+					l, h := closeInterval(cf, field, depth+1, memo)
+					if l < lo {
+						lo = l
+					}
+					if h > hi {
+						hi = h
+					}
+				}
+				return lo, hi
+			}
 		}
 		return 0, 0
 	}
@@ -346,10 +361,93 @@ func closeInterval(fn *ssa.Function, field string, depth int, memo map[*ssa.Func
 	return minAll, maxAll
 }
 
+// dynCallees: for the duration of one F3 evaluation, the module functions a dynamic call may run (function values handed in by
+// the call site under examination).
+var dynCallees = map[ssa.CallInstruction][]*ssa.Function{}
+
+// funcArg: what a function-typed argument denotes — module functions it may run and interface methods it forwards to.
+type funcArg struct {
+	fns     []*ssa.Function
+	methods []string
+}
+
+func funcArgOf(v ssa.Value) funcArg {
+	var out funcArg
+	switch x := v.(type) {
+	case *ssa.Function:
+		out.fns = append(out.fns, x)
+	case *ssa.ChangeType:
+		return funcArgOf(x.X)
+	case *ssa.MakeClosure:
+		f, _ := x.Fn.(*ssa.Function)
+		if f == nil {
+			return out
+		}
+		if f.Synthetic == "" {
+			out.fns = append(out.fns, f)
+			return out
+		}
+		for _, b := range f.Blocks {
+			for _, ins := range b.Instrs {
+				if ci, ok := ins.(ssa.CallInstruction); ok {
+					if ci.Common().IsInvoke() {
+						out.methods = append(out.methods, ci.Common().Method.Name())
+					} else if sc := ci.Common().StaticCallee(); sc != nil {
+						out.fns = append(out.fns, sc)
+					}
+				}
+			}
+		}
+	}
+	return out
+}
+
+// paramOfDynCall: the call runs a function value that is a parameter of `parent` (directly, or captured by the closure gf).
+func paramOfDynCall(ci ssa.CallInstruction, mc *ssa.MakeClosure, parent *ssa.Function) int {
+	v := ci.Common().Value
+	if ci.Common().IsInvoke() || v == nil {
+		return -1
+	}
+	if fv, ok := v.(*ssa.FreeVar); ok && mc != nil {
+		for i, f := range fv.Parent().FreeVars {
+			if f == fv && i < len(mc.Bindings) {
+				v = mc.Bindings[i]
+			}
+		}
+	}
+	if u, ok := v.(*ssa.UnOp); ok && u.Op == token.MUL {
+		// captured by reference: the cell holds the parameter
+		if a, ok := u.X.(*ssa.Alloc); ok {
+			if p, ok := isSpilledParam(a); ok {
+				v = p
+			}
+		}
+		if fv, ok := u.X.(*ssa.FreeVar); ok && mc != nil {
+			for i, f := range fv.Parent().FreeVars {
+				if f == fv && i < len(mc.Bindings) {
+					if a, ok := mc.Bindings[i].(*ssa.Alloc); ok {
+						if p, ok := isSpilledParam(a); ok {
+							v = p
+						}
+					}
+				}
+			}
+		}
+	}
+	if p, ok := v.(*ssa.Parameter); ok && p.Parent() == parent {
+		for i, q := range parent.Params {
+			if q == p {
+				return i
+			}
+		}
+	}
+	return -1
+}
+
 var ruleF3 = &Rule{
 	ID:    "F3",
 	Floor: 3,
-	Doc: "parser goroutine containment (SSA, interprocedural): every goroutine started in the live code of writer/utils/unmarshal whose function calls a parser's Decode method (1) registers, before that call, a deferred function that calls recover in its own body (a recover inside a nested closure does not recover); " +
+	Doc: "parser goroutine containment (SSA, interprocedural): every goroutine started in the live code of writer/utils/unmarshal whose function calls a parser's Decode method — directly, or through a function value its starter received from the caller (judged once per call site of the starter, with the function values that call site passes) — (1) registers, before that call, a deferred function that calls recover in its own body (a recover inside a nested closure does not recover); " +
 		"(2) closes the response channel (the struct field `res`) exactly once on every path from its entry to a return — closes are counted through the module functions called on the way (an extracted `send the error and close` helper counts for its one close), deferred recover handlers are not on normal paths",
 	Run: func(c *Ctx) []Obl {
 		var obls []Obl
@@ -360,46 +458,87 @@ var ruleF3 = &Rule{
 					if !ok {
 						continue
 					}
-					gf, _ := calleeOf(gs)
+					gf, mc := calleeOf(gs)
 					if gf == nil || len(gf.Blocks) == 0 {
 						continue
 					}
-					var decode ssa.Instruction
-					for _, gb := range gf.Blocks {
-						for _, gi := range gb.Instrs {
-							if call, ok := gi.(*ssa.Call); ok && call.Common().IsInvoke() && call.Common().Method.Name() == "Decode" {
-								decode = call
-							}
-						}
-					}
-					if decode == nil {
-						continue
-					}
-					name := ssaName(fn)
-					okDefer := false
-					for _, gb := range gf.Blocks {
-						for _, gi := range gb.Instrs {
-							if d, ok := gi.(*ssa.Defer); ok && before(d, decode) {
-								if callee, _ := calleeOf(d); callee != nil && recoversDirectly(callee) {
-									okDefer = true
+					judge := func(name string, decode ssa.Instruction, pos token.Pos) {
+						okDefer := false
+						for _, gb := range gf.Blocks {
+							for _, gi := range gb.Instrs {
+								if d, ok := gi.(*ssa.Defer); ok && before(d, decode) {
+									if callee, _ := calleeOf(d); callee != nil && recoversDirectly(callee) {
+										okDefer = true
+									}
 								}
 							}
 						}
+						s1, m1 := OK, ""
+						if !okDefer {
+							s1, m1 = Violation, "the parser goroutine does not register a directly-recovering deferred function before decoding: a panic while decoding a request body ends the process"
+						}
+						obls = append(obls, Obl{Key: name + " parser goroutine defers the recovering method first", Pos: c.pos(pos), Status: s1, Msg: m1})
+						lo, hi := closeInterval(gf, "res", 0, map[*ssa.Function][2]int{})
+						s2, m2 := OK, ""
+						if lo != 1 || hi != 1 {
+							s2, m2 = Violation, fmt.Sprintf("the parser goroutine closes the response channel between %d and %d times depending on the path: twice panics, never leaves the handler waiting forever", lo, hi)
+						}
+						obls = append(obls, Obl{Key: name + " response channel closed exactly once on every path", Pos: c.pos(pos), Status: s2, Msg: m2})
 					}
-					s1, m1 := OK, ""
-					if !okDefer {
-						s1, m1 = Violation, "the parser goroutine does not register a directly-recovering deferred function before decoding: a panic while decoding a request body ends the process"
+					var decode ssa.Instruction
+					dyn := map[ssa.CallInstruction]int{} // dynamic calls of the goroutine → parameter of fn they run
+					for _, gb := range gf.Blocks {
+						for _, gi := range gb.Instrs {
+							ci, ok := gi.(ssa.CallInstruction)
+							if !ok {
+								continue
+							}
+							if call, ok := gi.(*ssa.Call); ok && call.Common().IsInvoke() && call.Common().Method.Name() == "Decode" {
+								decode = call
+							}
+							if idx := paramOfDynCall(ci, mc, fn); idx >= 0 {
+								dyn[ci] = idx
+							}
+						}
 					}
-					obls = append(obls, Obl{Key: name + " parser goroutine defers the recovering method first", Pos: c.pos(gs.Pos()), Status: s1, Msg: m1})
-					lo, hi := closeInterval(gf, "res", 0, map[*ssa.Function][2]int{})
-					s2, m2 := OK, ""
-					if lo != 1 || hi != 1 {
-						s2, m2 = Violation, fmt.Sprintf("the parser goroutine closes the response channel between %d and %d times depending on the path: twice panics, never leaves the handler waiting forever", lo, hi)
+					if decode != nil {
+						judge(ssaName(fn), decode, gs.Pos())
+						continue
 					}
-					obls = append(obls, Obl{Key: name + " response channel closed exactly once on every path", Pos: c.pos(gs.Pos()), Status: s2, Msg: m2})
+					if len(dyn) == 0 {
+						continue
+					}
+					// the starter is generic: one instance per call site, with the functions that site passes
+					for _, site := range callSitesOf(c, fn) {
+						var dec ssa.Instruction
+						for ci, idx := range dyn {
+							if idx >= len(site.Common().Args) {
+								continue
+							}
+							fa := funcArgOf(site.Common().Args[idx])
+							for _, m := range fa.methods {
+								if m == "Decode" {
+									dec = ci.(ssa.Instruction)
+								}
+							}
+							for _, f := range fa.fns {
+								if f.Name() == "Decode" {
+									dec = ci.(ssa.Instruction)
+								}
+							}
+							dynCallees[ci] = fa.fns
+						}
+						if dec != nil {
+							judge(ssaName(site.Parent())+" (via "+fn.Name()+")", dec, site.Pos())
+						}
+						for ci := range dyn {
+							delete(dynCallees, ci)
+						}
+					}
 				}
 			}
 		}
+		sort.SliceStable(obls, func(i, j int) bool { return obls[i].Key < obls[j].Key })
 		return obls
 	},
 }
